@@ -113,9 +113,17 @@ class Recorder:
 
     def __enter__(self):
         mods = _all_modules()
+        self.missing = []
         for name in self.names:
-            home = importlib.import_module(PROCESS_MODULES[name])
-            orig = getattr(home, name)
+            # a function that is no longer where the harness expects it (renamed, moved, removed) cannot be
+            # observed: noted, never fatal — its correspondence then counts as not established
+            try:
+                home = importlib.import_module(PROCESS_MODULES[name])
+                orig = getattr(home, name)
+            except (ImportError, AttributeError):
+                self.missing.append(name)
+                MISSING.add(name)
+                continue
             orig = getattr(orig, "__wrapped__", orig)
             wrapped = self._wrap(name, orig)
             for m in mods:
@@ -130,6 +138,9 @@ class Recorder:
             setattr(m, attr, orig)
         self._patched = []
         return False
+
+
+MISSING = set()      # process functions not found in the implementation during this run
 
 
 class Trace:
